@@ -28,6 +28,9 @@ COMBINATORS = {
     "std::option::Option::<T>::and_then": (OPTION, "and_then"),
     "std::option::Option::<T>::unwrap_or_else": (OPTION, "unwrap_or_else"),
     "std::option::Option::<T>::ok_or_else": (OPTION, "ok_or_else"),
+    "std::option::Option::<T>::is_some_and": (OPTION, "is_some_and"),
+    "std::option::Option::<T>::is_none_or": (OPTION, "is_none_or"),
+    "std::option::Option::<T>::zip": (OPTION, "zip"),
     "std::result::Result::<T, E>::map": (RESULT, "map"),
     "std::result::Result::<T, E>::and_then": (RESULT, "and_then"),
     "std::result::Result::<T, E>::unwrap_or_else": (RESULT, "unwrap_or_else"),
@@ -147,7 +150,8 @@ def _normalise_call(body, bi, closures):
     if recv.get("k") not in ("copy", "move") or recv.get("p"):
         return False
     # the function argument must be a closure built here or a function path; otherwise leave the call alone
-    fpos = {"map": [1], "map_or": [2], "map_or_else": [1, 2], "and_then": [1], "unwrap_or_else": [1], "map_err": [1], "unwrap": [], "ok_or_else": [1]}[shape]
+    fpos = {"map": [1], "map_or": [2], "map_or_else": [1, 2], "and_then": [1], "unwrap_or_else": [1], "map_err": [1], "unwrap": [], "ok_or_else": [1],
+            "is_some_and": [1], "is_none_or": [1], "zip": []}[shape]
     for p in fpos:
         if p >= len(args):
             return False
@@ -190,6 +194,23 @@ def _normalise_call(body, bi, closures):
     elif shape == "map_or_else":
         hit = _apply_fn(bld, body, closures, args[2], [pay], dest, cont)
         miss = _apply_fn(bld, body, closures, args[1], [], dest, cont)
+    elif shape in ("is_some_and", "is_none_or"):
+        hit = _apply_fn(bld, body, closures, args[1], [pay], dest, cont)
+        miss = bld.block([bld.assign(copy.deepcopy(dest), {"k": "use", "op": {"k": "const", "ty": "bool", "val": "false" if shape == "is_some_and" else "true",
+                                                                                "int": 0 if shape == "is_some_and" else 1}})], bld.goto(cont))
+    elif shape == "zip":
+        # a.zip(b) = match (a, b) { (Some(x), Some(y)) => Some((x, y)), _ => None }
+        other = args[1]
+        if other.get("k") not in ("copy", "move") or other.get("p"):
+            return False
+        none_blk = bld.block([bld.assign(copy.deepcopy(dest), bld.agg(OPTION, "None", 0, []))], bld.goto(cont))
+        tup = bld.local("")
+        both = bld.block([bld.assign(bld.plain(tup), {"k": "agg", "ak": "tuple", "ops": [pay, bld.payload(other["l"], "Some", 1)]}),
+                          bld.assign(copy.deepcopy(dest), bld.agg(OPTION, "Some", 1, [{"l": tup, "p": [], "ty": "", "k": "move"}]))], bld.goto(cont))
+        d2 = bld.local("isize")
+        hit = bld.block([bld.assign(bld.plain(d2, "isize"), {"k": "discr", "place": {"l": other["l"], "p": [], "ty": ""}, "adt": OPTION, "variants": VARIANTS[OPTION]})],
+                        {"k": "switch", "discr": {"l": d2, "p": [], "ty": "isize", "k": "move"}, "targets": [[0, none_blk], [1, both]], "otherwise": none_blk, "span": span})
+        miss = none_blk
     elif shape == "ok_or_else":
         hit = bld.block([bld.assign(copy.deepcopy(dest), bld.agg(RESULT, "Ok", 0, [pay]))], bld.goto(cont))
         tmp = bld.local("")
